@@ -267,7 +267,8 @@ def run_public(case):
 def s_container(draw, tier):
     n = draw(st.integers(1, 8))
     times = [draw(st.sampled_from([0.0, 0.1, 0.2, 0.30000000000000004, 0.3, 0.5, -0.4, 1.0, 2.5])) for _ in range(n)]
-    return {"times": times, "via_constructor": draw(st.integers(0, n)), "mean_field": draw(st.booleans())}
+    return {"times": times, "via_constructor": draw(st.integers(0, n)), "mean_field": draw(st.booleans()),
+            "read_after": draw(st.lists(st.integers(0, n - 1), max_size=3))}
 
 
 def run_container(case):
@@ -285,8 +286,11 @@ def run_container(case):
               "MeanFieldDynamics" if case["mean_field"] else "Dynamics")
     if case["mean_field"]:
         d = MeanFieldDynamics()
-        for t, s_, f in zip(times, states, fields):
+        for j, (t, s_, f) in enumerate(zip(times, states, fields)):
             d.add(t, [s_, 2 * s_], f)
+            if j in case.get("read_after", []):      # the user looks at the object between additions
+                if not (len(d.times) == len(d.fields) == len(d.system_dynamics[0].times) == len(d.system_dynamics[0].states) == j + 1):
+                    out.fail("container/intermediate-read-length", f"after {j + 1} additions")
         got_t = list(d.times)
         got = [(t, complex(f), x[0, 0], y[0, 0]) for t, f, x, y in zip(d.times, d.fields, d.system_dynamics[0].states, d.system_dynamics[1].states)]
         want = [(t, f, s_[0, 0], 2 * s_[0, 0]) for t, s_, f in zip(times, states, fields)]
@@ -299,12 +303,17 @@ def run_container(case):
     else:
         k0 = case["via_constructor"]
         d = Dynamics(times=list(times[:k0]), states=states[:k0]) if k0 else Dynamics()
-        for t, s_ in zip(times[k0:], states[k0:]):
+        for j, (t, s_) in enumerate(zip(times[k0:], states[k0:])):
             d.add(t, s_)
+            if (k0 + j) in case.get("read_after", []):   # the user looks at the object between additions
+                if not (len(d.times) == len(d.states) == len(d) == k0 + j + 1):
+                    out.fail("container/intermediate-read-length", f"after {k0 + j + 1} additions")
         got_t = list(d.times)
         got = [(t, x[0, 0]) for t, x in zip(d.times, d.states)]
         want = sorted(((t, s_[0, 0]) for t, s_ in zip(times, states)), key=lambda r: (r[0], r[1].real))
         got_sorted_within = sorted(got, key=lambda r: (r[0], r[1].real))
+        if len(d.times) != len(d.states) or len(d) != n:
+            out.fail("container/times-states-length", f"{len(d.times)} times, {len(d.states)} states, len {len(d)} after {n} additions")
         tt, ex = d.expectations(np.array([[1.0, 0], [0, 0]]))
         if list(tt) != got_t or not np.allclose(ex, [x[0, 0] for x in d.states]):
             out.fail("container/expectations-misaligned", "expectations() not aligned with times/states")
